@@ -1,5 +1,5 @@
 import IstioModel.C02.Sender
-import IstioModel.C02.QueueTheorems
+import IstioModel.C02.QueueRefinement
 
 /-!
 # C02 - the push sender never wedges
@@ -28,11 +28,20 @@ structure InvS (s : Sender) : Prop where
   nodup : (inflight s).Nodup
   /-- hand-outs = MarkDone calls + flights, per connection -/
   once : ∀ c, s.deqs c = s.dones c + (inflight s).count c
+  /-- no nil request is waiting in the queue, so `doSendPushes` never dereferences one -/
+  nn : NN s.q
+  alive : s.loop ≠ .crashed
 
-/-- Admissible events: enqueued pointers point to existing requests (or are nil). -/
+/-- Admissible events: enqueued pointers point to existing requests and are **not nil** (nobody
+    enqueues a nil request; `nil_enqueue_crashes_witness` shows what happens otherwise). -/
 def SEv.ok (s : Sender) : SEv → Prop
-  | .enq _ r => okRef s.q.heap.reqs.length r = true
+  | .enq _ r => ∃ i, r = some i ∧ i < s.q.heap.reqs.length
   | _ => True
+
+theorem SEv.ok_ref {s : Sender} {c : Conn} {r : Option Ref} (h : (SEv.enq c r).ok s) :
+    okRef s.q.heap.reqs.length r = true := by
+  obtain ⟨i, rfl, hi⟩ := h
+  simp [okRef, hi]
 
 theorem takeFlight_spec (c : Conn) (l : List Flight) (f : Flight) (rest : List Flight)
     (h : takeFlight c l = some (f, rest)) : f.1 = c ∧ l.Perm (f :: rest) := by
@@ -74,7 +83,7 @@ theorem takeFlight_of_mem (c : Conn) (l : List Flight) (h : c ∈ l.map (·.1)) 
 theorem invS_init (h : Heap) (hwf : h.wf = true) (cap : Nat) : InvS { q := QState.init h, cap := cap } :=
   { qinv := inv_init h hwf, balance := rfl, bound := Nat.zero_le _,
     proc := by intro c; simp [inflight, QState.init], nodup := by simp [inflight],
-    once := by intro c; simp [inflight] }
+    once := by intro c; simp [inflight], nn := by intro c; simp [QState.init], alive := by simp }
 
 /-- Any exit of a flight of `c` (`doneFunc` after removing it from wherever it was). -/
 theorem inv_exit (s : Sender) (hi : InvS s) (p' d' : List Flight) (c : Conn)
@@ -84,7 +93,8 @@ theorem inv_exit (s : Sender) (hi : InvS s) (p' d' : List Flight) (c : Conn)
   simp only [inflight, List.length_map, List.length_append, List.length_cons] at hlen
   have hnd : (c :: (p' ++ d').map (·.1)).Nodup := hperm.nodup_iff.mp hi.nodup
   have hcn : c ∉ (p' ++ d').map (·.1) := (List.nodup_cons.mp hnd).1
-  refine { qinv := inv_markDone s.q c hi.qinv, balance := ?_, bound := ?_, proc := ?_, nodup := ?_, once := ?_ }
+  refine { qinv := inv_markDone s.q c hi.qinv, balance := ?_, bound := ?_, proc := ?_, nodup := ?_, once := ?_,
+           nn := (refines_markDone s.q hi.qinv hi.nn c).2, alive := hi.alive }
   · have := hi.balance
     simp only [doneFunc]; omega
   · have := hi.bound
@@ -124,6 +134,20 @@ theorem enqueue_processing_isSome (s : QState) (c c' : Conn) (r : Option Ref) :
   · subst hcc; simp [hp]
   · simp [hcc]
 
+/-- With no nil pointer pending, `Dequeue` never hands out a nil request. -/
+theorem got_nonnil (q : QState) (hi : Inv q) (hnn : NN q) (c : Conn) (r : Option Ref) (rest : List Conn)
+    (hq : q.queue = c :: rest) (hres : dequeueRes q = .got c r) : ∃ i, r = some i := by
+  rw [dequeue_head q c rest hq] at hres
+  simp only [DeqRes.got.injEq, true_and] at hres
+  have hm : c ∈ q.queue := by simp [hq]
+  have hp := (hi.queued c).mp hm
+  cases hpc : q.pending c with
+  | none => rw [hpc] at hp; cases hp
+  | some v =>
+    cases v with
+    | none => exact absurd hpc (hnn c)
+    | some i => exact ⟨i, by rw [← hres]; simp [pendingOf, hpc]⟩
+
 theorem invS_step (s s' : Sender) (e : SEv) (hi : InvS s) (hok : e.ok s) (h : stepS s e = some s') : InvS s' := by
   cases e with
   | enter =>
@@ -131,7 +155,8 @@ theorem invS_step (s s' : Sender) (e : SEv) (hi : InvS s) (hok : e.ok s) (h : st
     split at h
     · rename_i hc
       simp only [Option.some.injEq] at h; subst h
-      refine { qinv := hi.qinv, balance := ?_, bound := hi.bound, proc := hi.proc, nodup := hi.nodup, once := hi.once }
+      refine { qinv := hi.qinv, balance := ?_, bound := hi.bound, proc := hi.proc, nodup := hi.nodup, once := hi.once,
+               nn := hi.nn, alive := by simp }
       have := hi.balance; rw [hc.1] at this; simpa [LoopPc.holds] using this
     · cases h
   | acquire =>
@@ -139,7 +164,8 @@ theorem invS_step (s s' : Sender) (e : SEv) (hi : InvS s) (hok : e.ok s) (h : st
     split at h
     · rename_i hc
       simp only [Option.some.injEq] at h; subst h
-      refine { qinv := hi.qinv, balance := ?_, bound := ?_, proc := hi.proc, nodup := hi.nodup, once := hi.once }
+      refine { qinv := hi.qinv, balance := ?_, bound := ?_, proc := hi.proc, nodup := hi.nodup, once := hi.once,
+               nn := hi.nn, alive := by simp }
       · have := hi.balance; rw [hc.1] at this; simp only [LoopPc.holds] at this ⊢; omega
       · exact hc.2
     · cases h
@@ -148,7 +174,8 @@ theorem invS_step (s s' : Sender) (e : SEv) (hi : InvS s) (hok : e.ok s) (h : st
     split at h
     · rename_i hc
       simp only [Option.some.injEq] at h; subst h
-      refine { qinv := hi.qinv, balance := ?_, bound := hi.bound, proc := hi.proc, nodup := hi.nodup, once := hi.once }
+      refine { qinv := hi.qinv, balance := ?_, bound := hi.bound, proc := hi.proc, nodup := hi.nodup, once := hi.once,
+               nn := hi.nn, alive := by simp }
       have := hi.balance; rw [hc.1] at this; simpa [LoopPc.holds] using this
     · cases h
   | dequeue =>
@@ -159,26 +186,30 @@ theorem invS_step (s s' : Sender) (e : SEv) (hi : InvS s) (hok : e.ok s) (h : st
       | blocked => simp [hres] at h
       | shutdown =>
         simp only [hres, Option.some.injEq] at h; subst h
-        refine { qinv := hi.qinv, balance := ?_, bound := hi.bound, proc := hi.proc, nodup := hi.nodup, once := hi.once }
+        refine { qinv := hi.qinv, balance := ?_, bound := hi.bound, proc := hi.proc, nodup := hi.nodup, once := hi.once,
+                 nn := hi.nn, alive := by simp }
         have := hi.balance; rw [hl] at this; simpa [LoopPc.holds] using this
       | got c r =>
-        simp only [hres, Option.some.injEq] at h; subst h
-        obtain ⟨hpn, hps, _⟩ := dequeue_not_in_flight s.q hi.qinv c r hres
-        have hcn : c ∉ inflight s := by
-          intro hm; have := (hi.proc c).mpr hm; rw [hpn] at this; cases this
         have hq : ∃ rest, s.q.queue = c :: rest := by
           unfold dequeueRes at hres
           cases hq : s.q.queue with
           | nil => simp [hq] at hres; split at hres <;> cases hres
           | cons c' rest => simp only [hq, DeqRes.got.injEq] at hres; exact ⟨rest, by rw [hres.1]⟩
         obtain ⟨rest, hq⟩ := hq
-        have hinf : inflight { s with q := dequeueState s.q, parked := s.parked ++ [(c, r)], loop := LoopPc.top,
+        obtain ⟨i, hri⟩ := got_nonnil s.q hi.qinv hi.nn c r rest hq hres
+        subst hri
+        simp only [hres, Option.some.injEq] at h; subst h
+        obtain ⟨hpn, hps, _⟩ := dequeue_not_in_flight s.q hi.qinv c (some i) hres
+        have hcn : c ∉ inflight s := by
+          intro hm; have := (hi.proc c).mpr hm; rw [hpn] at this; cases this
+        have hinf : inflight { s with q := dequeueState s.q, parked := s.parked ++ [(c, some i)], loop := LoopPc.top,
                                       deqs := bump s.deqs c } = (s.parked.map (·.1) ++ [c]) ++ s.delivered.map (·.1) := by
           simp [inflight]
         have hperm : ((s.parked.map (·.1) ++ [c]) ++ s.delivered.map (·.1)).Perm (c :: inflight s) := by
           simp only [inflight, List.map_append, List.append_assoc, List.singleton_append]
           exact List.perm_middle
-        refine { qinv := inv_dequeue s.q hi.qinv, balance := ?_, bound := hi.bound, proc := ?_, nodup := ?_, once := ?_ }
+        refine { qinv := inv_dequeue s.q hi.qinv, balance := ?_, bound := hi.bound, proc := ?_, nodup := ?_, once := ?_,
+                 nn := (refines_dequeue s.q hi.qinv hi.nn).2.1, alive := by simp }
         · have := hi.balance; rw [hl] at this
           simp only [LoopPc.holds, List.length_append, List.length_singleton] at this ⊢; omega
         · intro c'
@@ -213,7 +244,8 @@ theorem invS_step (s s' : Sender) (e : SEv) (hi : InvS s) (hok : e.ok s) (h : st
           rw [← List.append_assoc]
           exact List.perm_append_comm.trans (by simp)
         exact this.trans (List.Perm.append hp.symm (List.Perm.refl _))
-      refine { qinv := hi.qinv, balance := ?_, bound := hi.bound, proc := ?_, nodup := ?_, once := ?_ }
+      refine { qinv := hi.qinv, balance := ?_, bound := hi.bound, proc := ?_, nodup := ?_, once := ?_,
+               nn := hi.nn, alive := hi.alive }
       · have := hi.balance
         have hl := hp.length_eq
         simp only [List.length_cons] at hl
@@ -266,28 +298,35 @@ theorem invS_step (s s' : Sender) (e : SEv) (hi : InvS s) (hok : e.ok s) (h : st
     · cases h
   | enq c r =>
     simp only [stepS, Option.some.injEq] at h; subst h
-    exact { qinv := inv_enqueue s.q c r hi.qinv hok, balance := hi.balance, bound := hi.bound,
-            proc := by intro c'; rw [enqueue_processing_isSome]; exact hi.proc c', nodup := hi.nodup, once := hi.once }
+    have hnn : NN (enqueue s.q c r) := by
+      obtain ⟨i, rfl, hi'⟩ := hok
+      exact (refines_enqueue s.q hi.qinv hi.nn c i _ (List.getElem?_eq_getElem hi')).2
+    exact { qinv := inv_enqueue s.q c r hi.qinv (SEv.ok_ref hok), balance := hi.balance, bound := hi.bound,
+            proc := by intro c'; rw [enqueue_processing_isSome]; exact hi.proc c', nodup := hi.nodup, once := hi.once,
+            nn := hnn, alive := hi.alive }
   | close c =>
     simp only [stepS, Option.some.injEq] at h; subst h
-    exact { qinv := hi.qinv, balance := hi.balance, bound := hi.bound, proc := hi.proc, nodup := hi.nodup, once := hi.once }
+    exact { qinv := hi.qinv, balance := hi.balance, bound := hi.bound, proc := hi.proc, nodup := hi.nodup, once := hi.once,
+            nn := hi.nn, alive := hi.alive }
   | stop =>
     simp only [stepS, Option.some.injEq] at h; subst h
-    exact { qinv := hi.qinv, balance := hi.balance, bound := hi.bound, proc := hi.proc, nodup := hi.nodup, once := hi.once }
+    exact { qinv := hi.qinv, balance := hi.balance, bound := hi.bound, proc := hi.proc, nodup := hi.nodup, once := hi.once,
+            nn := hi.nn, alive := hi.alive }
   | shut =>
     simp only [stepS, Option.some.injEq] at h; subst h
     exact { qinv := inv_step s.q .shut hi.qinv trivial, balance := hi.balance, bound := hi.bound, proc := hi.proc,
-            nodup := hi.nodup, once := hi.once }
+            nodup := hi.nodup, once := hi.once, nn := hi.nn, alive := hi.alive }
 
-/-- A history is admissible when every enqueued pointer is nil or an object of the initial heap. -/
+/-- A history is admissible when every enqueued pointer is a (non-nil) object of the initial heap. -/
 def EvsOk (n : Nat) : List SEv → Prop
   | [] => True
-  | .enq _ r :: es => okRef n r = true ∧ EvsOk n es
+  | .enq _ r :: es => (∃ i, r = some i ∧ i < n) ∧ EvsOk n es
   | _ :: es => EvsOk n es
 
 theorem evsOk_mono {n m : Nat} (h : n ≤ m) : ∀ es, EvsOk n es → EvsOk m es
   | [], _ => trivial
-  | .enq _ _ :: es, ho => ⟨okRef_mono h ho.1, evsOk_mono h es ho.2⟩
+  | .enq _ _ :: es, ho =>
+    ⟨by obtain ⟨i, h1, h2⟩ := ho.1; exact ⟨i, h1, Nat.lt_of_lt_of_le h2 h⟩, evsOk_mono h es ho.2⟩
   | .enter :: es, ho => evsOk_mono h es ho
   | .acquire :: es, ho => evsOk_mono h es ho
   | .loopStop :: es, ho => evsOk_mono h es ho
@@ -326,7 +365,10 @@ theorem heap_mono_stepS (s s' : Sender) (e : SEv) (h : stepS s e = some s') :
     · cases hres : dequeueRes s.q with
       | blocked => simp [hres] at h
       | shutdown => simp only [hres, Option.some.injEq] at h; subst h; exact Nat.le_refl _
-      | got c r => simp only [hres, Option.some.injEq] at h; subst h; exact hq .deq
+      | got c r =>
+        cases r with
+        | none => simp only [hres, Option.some.injEq] at h; subst h; exact hq .deq
+        | some i => simp only [hres, Option.some.injEq] at h; subst h; exact hq .deq
     · cases h
   | deliver c =>
     simp only [stepS] at h
@@ -409,6 +451,10 @@ theorem flight_exit_releases (s : Sender) (hi : InvS s) (c : Conn) (hc : c ∈ i
     (hlive : c ∈ s.parked.map (·.1) → s.closed c = true ∨ s.stopped = true) :
     ∃ e s', stepS s e = some s' ∧ s'.tokens + 1 = s.tokens ∧ c ∉ inflight s' ∧ s'.q.processing c = none ∧
       (∀ r, s.q.processing c = some (some r) → c ∈ s'.q.queue) := by
+  -- `hlive` leaves out one case on purpose: a parked event of a client that is alive but not
+  -- reading (its stream loop is inside a slow `Send`).  That flight has no *enabled* exit until the
+  -- loop comes back, the client's context ends, or the server stops: a liveness assumption
+  -- (a blocked gRPC send ends with the stream's context), not something the sender can repair.
   have hpos : 1 ≤ s.tokens := by
     have := hi.balance
     have : 1 ≤ s.parked.length + s.delivered.length := by
@@ -467,9 +513,24 @@ theorem loop_can_proceed (s : Sender) (hi : InvS s) (hl : s.loop = .top) (hs : s
   refine ⟨{ s with tokens := s.tokens + 1, loop := .holding }, by simp [runS, stepS, hl, hs, hlt], rfl, ?_⟩
   intro c rest hq
   have hres : dequeueRes s.q = .got c (pendingOf s.q c) := dequeue_head s.q c rest hq
-  refine ⟨{ s with tokens := s.tokens + 1, q := dequeueState s.q, parked := s.parked ++ [(c, pendingOf s.q c)],
+  obtain ⟨i, hri⟩ := got_nonnil s.q hi.qinv hi.nn c _ rest hq hres
+  rw [hri] at hres
+  refine ⟨{ s with tokens := s.tokens + 1, q := dequeueState s.q, parked := s.parked ++ [(c, some i)],
                    loop := .top, deqs := bump s.deqs c }, by simp [stepS, hres], ?_⟩
   simp [inflight]
+
+/-- **The sender never crashes** as long as nobody enqueues a nil request: `Dequeue` then never hands
+    out nil, so `recordPushTriggers(push.Reason)` / `push.Start` are never a nil dereference. -/
+theorem sender_never_crashes (h : Heap) (hwf : h.wf = true) (cap : Nat) (es : List SEv)
+    (hok : EvsOk h.reqs.length es) (s : Sender) (hr : runS { q := QState.init h, cap := cap } es = some s) :
+    s.loop ≠ .crashed :=
+  (invS_run _ s es (invS_init h hwf cap) hok hr).alive
+
+/-- ... and a nil enqueue does crash it (no caller does this: `StartPush` and `ProxyUpdate` pass
+    the address of a request). -/
+theorem nil_enqueue_crashes_witness :
+    ((runS { q := QState.init exHeap, cap := 1 } [.enq 0 none, .enter, .acquire, .dequeue]).map (·.loop)) =
+      some .crashed := by decide
 
 /-! ## Non-vacuity: a client dies while its push event is parked -/
 
